@@ -4,12 +4,18 @@ import sys, os, json, re, glob
 prop, rx, out, desc = sys.argv[1:5]
 ALL = len(sys.argv) > 5 and sys.argv[5] == "--all"   # also entries whose evidence is a measured state change, not a diverging result
 root = os.path.dirname(os.path.dirname(os.path.dirname(os.path.abspath(__file__))))
+sys.path.insert(0, os.path.join(root, "harness"))
+import common
+NOW = common.tree_id()
+assert NOW["repo"] == "/repo" and not NOW["modified"], "collect only from the unchanged /repo: %r" % (NOW,)
 ent = {}
 if os.path.exists(out):
     for f in json.load(open(out))["findings"]:
         ent[f["signature"]] = f
 for p in sorted(glob.glob(os.path.join(root, "replays", prop + "-*.json"))):
     r = json.load(open(p))
+    if r.get("tree") != NOW:
+        continue        # produced on another tree (a seeded worktree, an older HEAD) or before trees were recorded
     if (r.get("failing_input_found") or ALL) and re.search(rx, r["signature"]) and r["signature"] not in ent:
         ent[r["signature"]] = {"property": prop, "signature": r["signature"], "class": desc, "what": r["what"][:400], "input": r.get("case")}
 json.dump({"findings": [ent[k] for k in sorted(ent)]}, open(out, "w"), indent=1)
